@@ -9,13 +9,13 @@ CONSTANTS
   HARD = 1440
   SOFTEP = 2
   MEM = 6
-  DTs = {100, 1500}
+  DTs = {100}
   CUs = {1, 8}
   Ep0 = 4
   T0 = 10000
   A0 = 0
   FixedServ = FALSE
-  MaxEp = 8
+  MaxEp = 7
   MaxPay = 3
   MaxOps = 0
   GenHist = FALSE
